@@ -67,7 +67,7 @@ theorem stepInner_fetch {s s2 : Sim} {instr : SimInstr} (h : Fetches s instr s2)
       exact fetchExec_ok hns1 hf hd
 
 /-- `step`/`step_in` add nothing to a step that ends normally (both trap modes) -/
-theorem stepIn_of_stepInner_ok {s s' : Sim} (h : stepInner { s with observer := [], log := [] } = (.ok (), s')) :
+theorem stepIn_of_stepInner_ok {s s' : Sim} (h : stepInner { s with observer := {}, log := [] } = (.ok (), s')) :
     stepIn s = (.ok (), s') := by
   unfold stepIn step
   simp only [h]
@@ -75,7 +75,7 @@ theorem stepIn_of_stepInner_ok {s s' : Sim} (h : stepInner { s with observer := 
 
 /-- Under virtual traps an error of the inner step is what `step_in` reports. -/
 theorem stepIn_of_stepInner_err_virtual {s s' : Sim} {e : SimErr}
-    (h : stepInner { s with observer := [], log := [] } = (.error (.err e), s')) (hv : s'.flags.realTraps = false) :
+    (h : stepInner { s with observer := {}, log := [] } = (.error (.err e), s')) (hv : s'.flags.realTraps = false) :
     stepIn s = (.error e, s') := by
   unfold stepIn step
   simp [h, hv]
